@@ -296,7 +296,12 @@ def emit_dobj(o: J, ids: Ids) -> Tuple[str, str]:
     nm = _named(o["name"], o.get("long_name"), o.get("desc"))
     if t == "DOP":
         s = f"<DATA-OBJECT-PROP{head}>{nm}" + emit_compu(o["compu"]) + emit_dct(o["dct"])
-        s += f'<PHYSICAL-TYPE BASE-DATA-TYPE="{o["ptype"]}"/>'
+        if o.get("precision") is not None or o.get("radix") is not None:
+            # PRECISION / DISPLAY-RADIX are display hints: they must not change any value
+            s += f'<PHYSICAL-TYPE BASE-DATA-TYPE="{o["ptype"]}"' + _attr("DISPLAY-RADIX", o.get("radix")) + \
+                ">" + _tag("PRECISION", o.get("precision")) + "</PHYSICAL-TYPE>"
+        else:
+            s += f'<PHYSICAL-TYPE BASE-DATA-TYPE="{o["ptype"]}"/>'
         ic = o.get("iconstr")
         if ic is not None:
             s += "<INTERNAL-CONSTR>" + _limit("LOWER-LIMIT", ic.get("lo")) + \
